@@ -69,6 +69,10 @@ fn dec_call<'a, M: Deserialize<'a> + std::fmt::Debug>(seg: &'a [u8]) -> String {
 }
 
 fn dec_reply<'a, P: Deserialize<'a> + std::fmt::Debug>(seg: &'a [u8]) -> String {
+    // a reply is a JSON object (C04): serde's derived visitors would also take sequence forms
+    if seg.iter().find(|b| !b" \t\r\n".contains(b)) != Some(&b'{') {
+        return "err:json".into();
+    }
     if let Ok(e) = serde_json::from_slice::<zlink_core::varlink_service::Error>(seg) {
         return format!("vs:{}", digest(&format!("{:?}", e)));
     }
@@ -87,7 +91,8 @@ fn oracle(target: &str, seg: &[u8]) -> String {
         "call_borrowed" => dec_call::<Borrowed>(seg),
         "call_lenient" => dec_call::<Lenient>(seg),
         "call_value" => dec_call::<Value>(seg),
-        "reply_typed" | "callm_typed" => dec_reply::<RP>(seg),
+        "rh_call_strict" => dec_call::<Strict>(seg),
+        "reply_typed" | "callm_typed" | "rh_reply_typed" => dec_reply::<RP>(seg),
         "reply_value" | "callm_value" => dec_reply::<Value>(seg),
         t => panic!("unknown target {t}"),
     }
@@ -104,6 +109,9 @@ macro_rules! run_ops {
             .unwrap_or_default();
         let (sock, sh) = SSocket::new(parse_events(&case["events"]));
         let mut $c = Connection::new(sock);
+        // "rejoin": the connection is split into its halves and joined again between any two
+        // receive futures (the model has no counterpart: split/join must not touch the read state)
+        let rejoin = case.get("rejoin").and_then(|x| x.as_bool()).unwrap_or(false);
         let mut ops = Vec::new();
         let mut polls: u64 = 0;
         let mut cancels = 0u64;
@@ -134,9 +142,20 @@ macro_rules! run_ops {
                 if stuck {
                     break 'ops;
                 }
+                if rejoin {
+                    let (r, w) = $c.split();
+                    $c = Connection::join(r, w);
+                }
                 if let Some(r) = res {
-                    let (rp, mp, cap) = $c.read().verif_state();
-                    ops.push(json!({"res": r, "st": [cap, mp, rp]}));
+                    #[cfg(zlink_verif)]
+                    let st = {
+                        let (rp, mp, cap) = $c.read().verif_state();
+                        json!([cap, mp, rp])
+                    };
+                    // built without the hook cfg (production buffer limit): results only
+                    #[cfg(not(zlink_verif))]
+                    let st = Value::Null;
+                    ops.push(json!({"res": r, "st": st}));
                     break;
                 }
                 // cancelled: start a new receive
@@ -184,6 +203,13 @@ fn run_case(case: &Value) -> Value {
         }
         "reply_value" => {
             run_ops!(case, c => c.receive_reply::<Value, RE>(), fmt_reply)
+        }
+        // the same operations entered through the read half
+        "rh_call_strict" => {
+            run_ops!(case, c => c.read_mut().receive_call::<Strict>(), fmt_call)
+        }
+        "rh_reply_typed" => {
+            run_ops!(case, c => c.read_mut().receive_reply::<RP, RE>(), fmt_reply)
         }
         // the convenience wrapper: every incarnation sends the call again, then receives
         "callm_typed" => {
